@@ -107,6 +107,27 @@ var aliasTable = map[string]map[string]string{
 func findReset(p *Program, n *types.Named) *ssa.Function {
 	for _, name := range []string{"Reset", "reset"} {
 		if fn := hasMethod(p, n, name, nil); fn != nil {
+			// a Reset that only forwards to one helper of the same receiver (gzip.Writer.Reset -> init):
+			// the helper is where the paths have to be judged
+			if len(fn.Blocks) == 1 {
+				var only *ssa.Function
+				cnt := 0
+				for _, c := range allCalls(fn) {
+					cnt++
+					if f := c.Common().StaticCallee(); f != nil && f.Blocks != nil && f.Signature.Recv() != nil && len(c.Common().Args) > 0 && c.Common().Args[0] == ssa.Value(fn.Params[0]) {
+						only = f
+					}
+				}
+				stores := 0
+				for _, in := range fn.Blocks[0].Instrs {
+					if _, ok := in.(*ssa.Store); ok {
+						stores++
+					}
+				}
+				if cnt == 1 && only != nil && stores == 0 {
+					return only
+				}
+			}
 			return fn
 		}
 	}
